@@ -5,12 +5,16 @@ CONSTANTS
   Targets <- TargU
   TsTargets <- TargU
   MaxTs = 3
-  PublicQueue = FALSE
+  MaxSweeps = 0
+  MaxQueued = 1
+  PublicQueue = TRUE
+  DtChangeQueued = FALSE
+  FixQ = FALSE
   LeftRenormSite = 0
   FlipWrap = TRUE
   Ls <- LsAll
   Record = FALSE
-  SimLen = 3
+  SimLen = 4
 INVARIANT TimeExact
 INVARIANT QueueDrained
 INVARIANT ProductFormula
